@@ -12,7 +12,7 @@ class C12(Check):
     SHRINK = False
     RULE = ('the modular programs of C09 (1-4 named sub-specifications, nested, repeated, with constants) plus a named sub-specification / variable directly below every bounded operator with a window longer than the trace; after offline evaluate() and after every online '
             'update() (pastified when the program has bounded-future operators) get_value of every assertion / sub-specification name is compared with a '
-            'stand-alone specification of the inlined formula bound to that name (pastified too), and get_value of every variable with the supplied data; '
+            'stand-alone specification of the inlined formula bound to that name (pastified too), and get_value of every declared variable, read by the formula or not, with the supplied data; '
             'also against rho; non-trivial = >= 2 names and a stateful named formula; distinct by (program, data)')
 
     def gen_cases(self, rng, tier):
@@ -49,7 +49,7 @@ class C12(Check):
         data = {'time': c['times']}
         for i in range(c['nv']):
             data[fml.VARS[i]] = list(c['cols'][i])
-        used = fml.fvars(c['f'])
+        used = list(range(c['nv']))        # every declared variable is supplied, also those the formula does not read
         names = self.names(c)
         gv = [['get_value', nm] for (nm, s) in names] + [['get_value', fml.VARS[i]] for i in used]
         base = {'vars': fml.VARS[:c['nv']]}
@@ -84,7 +84,7 @@ class C12(Check):
             for r in i['calls']:
                 if r['status'] != 'ok':
                     return 'violation', dict(det, expected='every call returns', observed=r)
-        used = fml.fvars(c['f'])
+        used = list(range(c['nv']))
         on = self.online_ok(c)
         step = 2 if on else 1
         first_sa = 2 if on else 1
